@@ -678,3 +678,113 @@ Proof.
     destruct (recv_file_is_prefix _ _ _ _ Hwf H) as [k Hk];
     eexists; exists k; (split; [reflexivity|]); eexists; exact Hk.
 Qed.
+
+(** * Every reachable receiver state satisfies the invariant for the events it consumed *)
+Theorem recv_run_inv : forall cfg evs st outs, wf_params (r_blk cfg) (r_ws cfg) ->
+  run_recv cfg evs = (st, outs) -> exists k, RInv cfg (firstn k evs) st.
+Proof.
+  intros cfg evs st outs Hwf H. unfold run_recv in H.
+  assert (G : forall evs hist st0 st outs, RInv cfg hist st0 -> recv_steps cfg st0 evs = (st, outs) ->
+            exists k, RInv cfg (hist ++ firstn k evs) st).
+  { clear evs st outs H. intros evs. induction evs as [|e evs IH]; intros hist st0 st outs Hi H; cbn [recv_steps] in H.
+    - inversion H; subst. exists O. cbn [firstn]. rewrite app_nil_r. exact Hi.
+    - destruct (recv_step cfg st0 e) as [st1 out] eqn:E1. destruct (recv_steps cfg st1 evs) as [st2 outs2] eqn:E2.
+      inversion H; subst. destruct (r_phase st0) eqn:Hp.
+      + destruct (recv_step_spec _ _ _ _ _ _ Hwf Hi Hp E1) as [Hi1 _].
+        destruct (IH _ _ _ _ Hi1 E2) as [k Hk]. exists (S k). cbn [firstn].
+        replace (hist ++ e :: firstn k evs) with ((hist ++ [e]) ++ firstn k evs) by (rewrite <- app_assoc; reflexivity).
+        exact Hk.
+      + rewrite (recv_done_absorbing _ _ _ _ Hp) in E1. inversion E1; subst.
+        rewrite (recv_steps_done _ _ _ _ Hp) in E2. inversion E2; subst.
+        exists O. cbn [firstn]. rewrite app_nil_r. exact Hi. }
+  exact (G evs [] _ _ _ (recv_init_inv cfg Hwf) H).
+Qed.
+
+(** The 16-bit block number of the receiver is the unbounded count of accepted blocks modulo 65536. *)
+Theorem recv_bn_tracks_count : forall cfg evs st outs, wf_params (r_blk cfg) (r_ws cfg) ->
+  run_recv cfg evs = (st, outs) ->
+  exists k, r_bn st = lenN (accepted (r_blk cfg) 0 (firstn k evs)) mod 65536.
+Proof.
+  intros cfg evs st outs Hwf H. destruct (recv_run_inv _ _ _ _ Hwf H) as [k (_ & _ & _ & D & E & _)].
+  exists k. rewrite E, D. reflexivity.
+Qed.
+
+(** * Duplicate-packets mode (C16, receiver side) *)
+
+Lemma send_copies_length : forall f q k i, length (send_copies f q k i) = k.
+Proof. intros f q k. induction k; intros; cbn [send_copies length]; auto. Qed.
+
+(** [send_packet]: [rep] copies back to back; only the result of the first copy matters. *)
+Theorem send_packet_first_copy_decides : forall fails rep p nsent out n ok, 1 <= rep ->
+  send_packet fails rep p nsent = (out, n, ok) ->
+  ok = negb (memN nsent fails) /\
+  Forall (fun s => s_pk s = p) out /\
+  (ok = true -> length out = N.to_nat rep /\ n = nsent + rep) /\
+  (ok = false -> out = [mk_sent p true] /\ n = nsent + 1).
+Proof.
+  intros fails rep p nsent out n ok Hrep H. pose proof (send_packet_pk _ _ _ _ _ _ _ H) as Hp.
+  unfold send_packet in H. destruct (N.eqb_spec rep 0); [lia|].
+  destruct (memN nsent fails); inversion H; subst; cbn [negb].
+  - repeat split; try assumption; try discriminate; reflexivity.
+  - repeat split; try assumption; try discriminate. cbn [length]. rewrite send_copies_length. lia.
+Qed.
+
+(** Every acknowledgement of a data block is emitted exactly [rep] times back to back. *)
+Theorem r_ack_copies : forall cfg st next st' out, 1 <= r_rep cfg ->
+  memN (r_nsent st) (r_fails cfg) = false -> r_ack cfg st next = (st', out) ->
+  length out = N.to_nat (r_rep cfg) /\ Forall (fun a => s_pk (a_sent a) = Ack (r_bn st)) out /\ r_phase st' = next.
+Proof.
+  intros cfg st next st' out Hrep Hnf H. unfold r_ack in H.
+  destruct (send_packet (r_fails cfg) (r_rep cfg) (Ack (r_bn st)) (r_nsent st)) as [[o n] ok] eqn:P.
+  destruct (send_packet_first_copy_decides _ _ _ _ _ _ _ Hrep P) as (Hok & Hpk & Ht & _).
+  rewrite Hnf in Hok. cbn [negb] in Hok. subst ok. destruct (Ht eq_refl) as [Hl _].
+  inversion H; subst. unfold tag_file. rewrite map_length, Forall_map. repeat split; try assumption.
+Qed.
+
+(** * Conformant sender, any number of blocks (C15) *)
+
+(** Datagram-lifetime condition for uploads: a DATA datagram that arrives when [c] blocks have
+    been accepted carries a block of the sender's file less than 65536 blocks away from [c + 1]. *)
+Definition conformant_fresh (blk : N) (F : bytes) (evs : list ev) : Prop :=
+  forall pre e post n p, evs = pre ++ e :: post -> receive blk e = RPacket (Data n p) ->
+  exists k, 1 <= k <= nblk blk F /\ n = k mod 65536 /\ p = chunk blk F k /\
+            k < lenN (accepted blk 0 pre) + 1 + 65536 /\ lenN (accepted blk 0 pre) + 1 < k + 65536.
+
+Lemma accepted_conformant_gen : forall blk F evs, 0 < blk -> conformant_fresh blk F evs ->
+  exists m, (m <= N.to_nat (nblk blk F))%nat /\ accepted blk 0 evs = chunks_from blk F 1 m.
+Proof.
+  intros blk F evs Hb. induction evs as [|e evs IH] using rev_ind; intros H.
+  - exists O. split; [lia|reflexivity].
+  - assert (H1 : conformant_fresh blk F evs).
+    { intros pre e0 post n p Hev Hr. apply (H pre e0 (post ++ [e]) n p); [|exact Hr].
+      rewrite Hev, <- app_assoc. reflexivity. }
+    destruct (IH H1) as (m & Hm & Hacc). rewrite accepted_snoc. unfold accepts.
+    destruct (existsb (short blk) (accepted blk 0 evs)) eqn:Hfin; [exists m; rewrite app_nil_r; auto|].
+    destruct (receive blk e) as [p| |] eqn:Hr; try (exists m; rewrite app_nil_r; auto).
+    destruct p as [f mm os|f mm os|n d|n|c mm|os]; try (exists m; rewrite app_nil_r; auto).
+    destruct (H evs e [] n d eq_refl Hr) as (k & Hk & -> & -> & Hf1 & Hf2).
+    rewrite Hacc in *. unfold lenN in *. rewrite chunks_from_length in *.
+    destruct (N.eqb_spec (k mod 65536) ((0 + N.of_nat m + 1) mod 65536)) as [Ek|Ek];
+      [|exists m; rewrite app_nil_r; auto].
+    assert (k = N.of_nat m + 1) by lia. subst k.
+    exists (m + 1)%nat. split; [lia|]. rewrite chunks_from_app. cbn [chunks_from]. f_equal. f_equal. f_equal. lia.
+Qed.
+
+(** Uploads of any length, block numbers wrapping as often as needed: if the transfer
+    succeeds the file is the sender's file. *)
+Theorem recv_conformant_sender_any_length : forall cfg F evs st outs, wf_params (r_blk cfg) (r_ws cfg) ->
+  conformant_fresh (r_blk cfg) F evs ->
+  run_recv cfg evs = (st, outs) -> r_phase st = RDone OutOk ->
+  written_bytes (w_file (r_w st)) = F.
+Proof.
+  intros cfg F evs st outs Hwf Hc H Hok.
+  destruct (recv_final _ _ _ _ Hwf H Hok) as (Hfile & Hfin & _).
+  pose proof (proj1 Hwf) as Hb.
+  destruct (accepted_conformant_gen _ _ _ Hb Hc) as (m & Hm & Hacc).
+  rewrite Hfile, Hacc. rewrite Hacc in Hfin.
+  apply existsb_exists in Hfin. destruct Hfin as (c & Hin & Hs).
+  destruct (chunks_from_In _ _ _ _ _ Hin) as (k & Hk & ->). unfold short in Hs.
+  destruct (N.ltb_spec (lenN (chunk (r_blk cfg) F k)) (r_blk cfg)) as [Hs'|]; [|discriminate].
+  pose proof (chunk_short_last (r_blk cfg) F k Hb (proj1 Hk) Hs').
+  assert (m = N.to_nat (nblk (r_blk cfg) F)) by lia. subst m. apply chunks_concat. exact Hb.
+Qed.
